@@ -62,12 +62,24 @@ fn node_sums(s: Shape, w: &[u32]) -> Vec<u64> {
     }
 }
 
+thread_local! {
+    /// select twice from the combination that was built once; the observation is Idx(16 * first + second)
+    static TWICE: std::cell::Cell<bool> = const { std::cell::Cell::new(false) };
+}
+
 fn sel_obs<S>(s: &S, pop: &Pop, env: &mut mcx::Env, alpha: Alphabet) -> SelObs
 where
     S: Selector<Pop>,
     S::Error: KindOf,
 {
-    observe_select(s, pop, pop, env, alpha)
+    let first = observe_select(s, pop, pop, env, alpha);
+    if !TWICE.with(|t| t.get()) {
+        return first;
+    }
+    match (first, observe_select(s, pop, pop, env, alpha)) {
+        (SelObs::Idx(a), SelObs::Idx(b)) => SelObs::Idx(16 * a + b),
+        (SelObs::Idx(_), other) | (other, _) => other,
+    }
 }
 
 /// Build the combination and run one selection.  Err(overflow) if building failed.
@@ -208,7 +220,38 @@ pub fn case_scaled(s: Shape, v: &[u32], unit: u32) -> (u64, u64, Option<(String,
             law.mass.len(),
         );
     }
-    (st.leaves, st.choice_points, None, law.mass.len())
+    // two selections from the same combination value: independent, each with the law above
+    let mut extra_leaves = 0;
+    if st.leaves * st.leaves <= 200_000 && unit == 1 {
+        let mut law2: Law<usize> = Law::new();
+        let mut other = false;
+        TWICE.with(|t| t.set(true));
+        let st2 = explore(
+            |env| build_and_select(s, w, &pop, env, alpha),
+            |_, wt, r| match r {
+                Ok(SelObs::Idx(i)) => law2.add(i, wt),
+                _ => other = true,
+            },
+            2_000_000,
+        );
+        TWICE.with(|t| t.set(false));
+        extra_leaves = st2.leaves;
+        let mut want2: Law<usize> = Law::new();
+        for (i, x) in w.iter().enumerate() {
+            for (j, y) in w.iter().enumerate() {
+                want2.add(16 * i + j, Ratio::new(*x as u128 * *y as u128, total as u128 * total as u128));
+            }
+        }
+        if !st2.capped && st2.total_weight_is_one && st2.diverged.is_none() && (other || law2 != want2) {
+            return (
+                st.leaves + extra_leaves,
+                st.choice_points,
+                Some((format!("weighted/law-of-two/{s:?}"), format!("{label}: two selections from one combination value have the joint law {} (16*first+second) but independent selections give {}", law2.render(), want2.render()))),
+                law.mass.len(),
+            );
+        }
+    }
+    (st.leaves + extra_leaves, st.choice_points, None, law.mass.len())
 }
 
 const SHAPES: [Shape; 12] = [
@@ -351,7 +394,7 @@ pub fn run(run: &mut Run) {
     run.states = cases.len() as u64 + ov;
     run.traces_validated = run.evaluations;
     run.distinct_nontrivial = nontrivial;
-    run.rule = "every nesting shape of WeightedPair over 2..4 marker leaves (left chains via with_item_and_weight incl. the Result-chained form, right chains, balanced and mixed trees) and DynWeighted lists of 1..4(5) x every weight vector over 0..3 (thorough 0..5), and the same ratios scaled to totals just below 2^32; all grid word sequences explored; the member law must equal w_i/sum exactly, zero-weight members unreachable, all-zero => zero-weight error; u32-boundary weight vectors must build iff the total fits. non-trivial = scenarios with more than one reachable member".into();
+    run.rule = "every nesting shape of WeightedPair over 2..4 marker leaves (left chains via with_item_and_weight incl. the Result-chained form, right chains, balanced and mixed trees) and DynWeighted lists of 1..4(5) x every weight vector over 0..3 (thorough 0..5), and the same ratios scaled to totals just below 2^32; all grid word sequences explored; the member law must equal w_i/sum exactly, zero-weight members unreachable, all-zero => zero-weight error, two selections from one combination value are independent (product law); u32-boundary weight vectors must build iff the total fits. non-trivial = scenarios with more than one reachable member".into();
     run.bound("max_leaves", json!(if quick { 4 } else { 5 }));
     run.bound("max_weight", json!(wmax));
     run.bound("per_scenario_execution_budget", json!(budget.to_string()));
